@@ -78,7 +78,12 @@ def ttsvd(E, s):
     shape = s['shape']                      # dense shape handed to the constructor
     pattern = [tuple(p) for p in s['pattern']]
     entry = s.get('entry', 'torch')
-    A = E.pos_tensor('A', shape, pattern, s.get('dtype', 'float64'), 'numpy' if entry == 'numpy' else 'torch')
+    if s.get('general'):
+        # arbitrary sign-free entries (every unfolding of these shapes has a single row or a single column)
+        A = E.nparray('A', shape, 'float64') if entry == 'numpy' else E.tensor('A', shape, 'float64')
+        pattern = [tuple(ix) for ix in _all_index(shape)]
+    else:
+        A = E.pos_tensor('A', shape, pattern, s.get('dtype', 'float64'), 'numpy' if entry == 'numpy' else 'torch')
     eps = E.pos_scalar('eps', hi=1)
     kw = {}
     rmax = s.get('rmax')
@@ -143,6 +148,13 @@ def ttsvd(E, s):
         rl = rmax[1:-1] if isinstance(rmax, list) else [rmax]
         if all(r >= maxrank for r in rl):
             E.true('accuracy', bound_ok)
+
+
+def _all_index(shape):
+    out = [()]
+    for n in shape:
+        out = [o + (i,) for o in out for i in range(n)]
+    return out
 
 
 def pattern_in(shape, pattern, target):
